@@ -338,15 +338,19 @@ _ADDED = {
     "C39": "Added: R-DERIVED (a member filled from table lookups and read back is a cache: every table mutator invalidates it) and "
            "R-DELEXACT (delete erases under another key only where the exact name is known absent; 0 is returned exactly on "
            "paths that erased an entry).",
+    "C41": "Added: R-EXPAND-TOTAL (the group expansion that the duplicate-attribute rule runs on makes no decision by a membership "
+           "test against a container it grows itself, unless a hit raises: a visited set would hide the second copy of an attribute "
+           "reached along two use paths).",
     "C42": "Added: R-MEMBER-SCAN (a scan of element members filtered to Attr handles Use / ranges over all declarations)."
-           " Also R-MODULE-STATE: no generator function keeps state in module-level mutable objects unless the memo key determines the cached value.",
+           " Also R-MODULE-STATE: no generator function keeps state in module-level mutable objects unless the memo key determines the cached value."
+           " Also R-PROJECT-AGREE: the default-context projections of the generators (filters over the expansion that consult the nodefault facet) are one predicate on attributes, decided by evaluating each over a finite abstract domain of attributes.",
     "C43": "Added: R-XLANG-FEED (every data-flow feed between mirrored primitives in an MJX integrator has the same call order in "
            "the C integrator; fields the C driver produces by a primitive depend on the mirrored primitive in MJX) and "
            "R-XLANG-COVER (the ball-limit Jacobian axis depends on the quaternion's scalar part other than through the activity "
            "gate, on both sides).",
     "C47": "Added: R-APPLY (spec fields receive mass, first moment / mass, and the parallel-axis-corrected inertia in MuJoCo's "
            "order; compiler.inertiafromgeom is left at a value under which the explicit inertial wins — derived from the C++ "
-           "compiler's own condition) and R-BOUNDS (bound rows ordered per slot group).",
+           "compiler's own condition; a saved caller value written back in a try/finally counts as 'any value') and R-BOUNDS (bound rows ordered per slot group).",
     "C50": "Added: R-CAPACITY (a decision on the scene capacity outside the slot producer has an arm that reports) and "
            "R-INDEX-BOUND (interval analysis of every subscript of mjvOption's fixed-extent flag arrays: 113 sites inside "
            "[0, extent-1], through clamp macros, helpers, early returns, loops and decayed passes)."
